@@ -65,6 +65,26 @@ def backTransform (T : M3 Int) (v : V3 Rat) : V3 Rat := (intToRat T).mulVec v
 def implShortest (G : M3 Rat) (T : M3 Int) (pts : List (V3 Int)) (pto pfrom : V3 Rat) : List (V3 Rat) :=
   (pairShortest G (pto - pfrom) pts).map (backTransform T)
 
+/-! ### the tolerance rule of the kernels, exactly
+
+`length[k] − minimum < symprec` compares **lengths**.  With squared lengths `l2, m2` (`m2 ≤ l2`) and
+`tol > 0` it is `√l2 < √m2 + tol`, i.e. `l2 − m2 − tol² < 2·tol·√m2`, which is decided in `ℚ` without
+a square root (`Props/C05.lean: tieWithin_iff_sqrt`). `pairShortest` above is the `tol → 0⁺` limit
+(exact ties only); `pairShortestTol` is the rule as coded. -/
+
+def tieWithin (tol m2 l2 : Rat) : Bool :=
+  decide (l2 - m2 - tol * tol < 0) ||
+    decide ((l2 - m2 - tol * tol) * (l2 - m2 - tol * tol) < 4 * (tol * tol) * m2)
+
+def pairShortestTol (tol : Rat) (G : M3 Rat) (d : V3 Rat) (pts : List (V3 Int)) : List (V3 Rat) :=
+  let vecs := pts.map (fun p => d + p.toRat)
+  match minList (vecs.map (len2 G)) with
+  | none => []
+  | some m => vecs.filter (fun v => tieWithin tol m (len2 G v))
+
+def implShortestTol (tol : Rat) (G : M3 Rat) (T : M3 Int) (pts : List (V3 Int)) (pto pfrom : V3 Rat) : List (V3 Rat) :=
+  (pairShortestTol tol G (pto - pfrom) pts).map (backTransform T)
+
 /-! ### dense and sparse storage -/
 
 structure Dense where
